@@ -66,4 +66,30 @@ PROPS = {
         "trusted": ["sync.Mutex, sync.Map, the Go scheduler (fairness: an enabled goroutine eventually runs)"],
         "assumptions": [],
     },
+    "C17": {
+        "relation": "Corr.CheckDkg.scheck (after every event applied to a real instance's process service - reply class, generation table (threshold, participants, contributors), accounts in the wallet - equal sstep_ev of Session.v) - ties the C17_* theorems to the code",
+        "trusted": ["the clock: the model's time is the measured millisecond at which each event starts; events are kept 120 ms clear of the expiry instant of the addressed generation", "the wallet library's refusal of an existing / unknown wallet is an input of the model (store_ok), predicted by the harness from the name", "peers are real instances driven by the harness (prepared together with the instance under test)", "BLS library"],
+        "assumptions": ["C17_commit_needs_everyone is stated for contributions that all come from listed, distinct participants; the code compares counts (observation O2)"],
+    },
+    "C16": {
+        "relation": "Corr.CheckDkg.hcheck (after every message given to a real instance's receiver handlers under an authenticated caller name: refused / succeeded / failed, generation table, accounts = receive of Receiver.v) - ties C16_only_peers / C16_stranger_refused / C16_strangers_change_nothing to the code; share ownership is judged on the real replies for every (replier, caller) pair with the BLS library",
+        "trusted": ["the TLS layer that authenticates the caller name is not exercised here (C19)", "as C17", "C16_share_goes_to_its_owner is a statement about Dkg.v's on_contribute; on the implementation it is checked by verifying each reply share against the replier's vector at every participant identifier"],
+        "assumptions": ["peer names are distinct (the static peers service enforces it); a peer with identifier 0 cannot be distinguished from a stranger and is refused"],
+    },
+    "C13": {
+        "relation": "Corr.CheckDkg.dcheck (result class of the real OnGenerate and every instance's stored account = generate of Dkg.v run on the dealt polynomials recovered from the dealt shares, with the same lost / altered messages) - ties C13_failed_exchange_creates_no_account / C13_no_crash / C13_invalid_contribution_rejected to the code",
+        "trusted": ["group elements are represented by their discrete logarithms (homomorphic image): the harness confirms each reported logarithm by exponentiation with the real BLS library", "the dealt polynomial is interpolated from the dealt shares read through the verif view, and checked against every dealt share and the dealer's vector", "a panic inside a receiving instance is recovered by the harness's in-process transport and recorded (a real daemon would crash)", "commit-phase failures (a participant failing to store) are outside C13's statement and not injected"],
+        "assumptions": ["check_len (the repaired receiving side); cluster_inv and polys_ok for C13_no_crash (fresh instances, each dealer's own vector has threshold entries - confirmed per run by polyOf)"],
+    },
+    "C12": {
+        "relation": "Corr.CheckDkg.dcheck (as C13) on fault-free generations for every (n, t), initiator and commit-reply order - ties C12_success_is_consistent / C12_threshold_bounds to the code; Properties/C12alg.v (mathcomp) carries the algebra: any t shares recover, fewer determine nothing, Feldman check, aggregate key",
+        "trusted": ["as C13", "threshold signatures are combined with the real BLS library by the harness for every t-subset and (t-1)-subset; in Coq the statement is the field identity of Algebra/Shamir.v over an arbitrary field, signatures being a homomorphic image of shares", "'fewer do not' is proved as: t-1 shares are consistent with every candidate secret (information-theoretic), and observed as: no (t-1)-subset recovers a valid signature"],
+        "assumptions": ["partial: see Properties/C12.v (same verification vector on every participant is proved for honest dealing in C12alg, and observed on every run)"],
+        "extra_props": ["C12alg"],
+    },
+    "C14": {
+        "relation": "Corr.CheckInst.check_safe per instance (each instance of the cluster is the C01/C02 model on its own store and share key) and the cluster monitor: for every pair of conflicting duties the sets of instances that returned a valid partial signature are disjoint and cannot both reach t - ties C14_conflicting_duties_one_threshold to the code",
+        "trusted": ["as C01/C02 per instance", "concurrent delivery on one instance is covered by C04/C15 (serializability), which C14's per-instance histories rely on"],
+        "assumptions": ["guard63 (the repaired epoch guard) on every instance; threshold_ok n t (C12_threshold_bounds)"],
+    },
 }
